@@ -77,6 +77,10 @@ class Snap:
         self.repr = r
         self.repr_bytes = r.tobytes() if r is not None else None
         self.lists = (id(mp._mp), id(mp.qn))
+        self._ser = L.ser_mp(mp) if all(m is not None for m in mp._mp) else None
+
+    def ser(self):
+        return self._ser
 
     def diff(self, other):
         """names of the parts that differ"""
@@ -305,37 +309,38 @@ REGAUGE_EVOLVE = {"tdvp_mu_vmf", "tdvp_vmf", "tdvp_mu_cmf"}   # call self.ensure
 
 
 def chain_ops(env):
-    """returns a list of (name, thunk) where thunk() -> (opname, args(dict name->obj), regauge_ok, result, extra)"""
+    """every entry prepares one library call: returns None (not applicable) or
+    (opname, argument names, regauge_ok, call, extra); `call()` performs the library call(s) only."""
     rng = env.rng
 
     def op_copy():
         a = env.pick(env.states() + env.mpos())
-        return "copy", [a], False, env.objs[a].copy(), {}
+        return "copy", [a], False, lambda: env.objs[a].copy(), {}
 
     def op_metacopy():
         a = env.pick(env.states() + env.mpos())
-        return "metacopy", [a], False, env.objs[a].metacopy(), {}
+        return "metacopy", [a], False, lambda: env.objs[a].metacopy(), {}
 
     def op_conj():
         a = env.pick(env.states() + env.mpos())
-        return "conj", [a], False, env.objs[a].conj(), {}
+        return "conj", [a], False, lambda: env.objs[a].conj(), {}
 
     def op_to_complex():
         a = env.pick(env.states() + env.mpos())
-        return "to_complex", [a], False, env.objs[a].to_complex(), {}
+        return "to_complex", [a], False, lambda: env.objs[a].to_complex(), {}
 
     def op_scale():
         a = env.pick(env.states() + env.mpos())
         c = [2.0, -0.5, complex(0.3, 0.4), complex(1.0, 0.0)][int(rng.integers(0, 4))]
         o = env.objs[a]
         how = int(rng.integers(0, 3))
-        if how == 0 or isinstance(c, complex) and how == 1:
-            r = o.scale(c)
+        if how == 0:
+            call = lambda: o.scale(c)
         elif how == 1:
-            r = o * c
+            call = lambda: o * c
         else:
-            r = c * o if not isinstance(c, complex) or True else o.scale(c)
-        return "scale", [a], False, r, dict(c=repr(c))
+            call = lambda: c * o
+        return "scale", [a], False, call, dict(c=repr(c), how=how)
 
     def op_add():
         names = env.states(mps_only=True)
@@ -345,13 +350,8 @@ def chain_ops(env):
             return None
         fold = not np.allclose(x.coeff, y.coeff)
         how = int(rng.integers(0, 3))
-        if how == 0:
-            r = x.add(y)
-        elif how == 1:
-            r = x + y
-        else:
-            r = x - y
-        return "Mps.add" + ("" if how < 2 else "(sub)"), [a, b], fold, r, dict(fold=fold, same=a == b)
+        call = [lambda: x.add(y), lambda: x + y, lambda: x - y][how]
+        return "Mps.add" + ("" if how < 2 else "(sub)"), [a, b], fold, call, dict(fold=fold, same=a == b)
 
     def op_add_mpdm():
         names = env.states(mpdm_only=True)
@@ -360,70 +360,68 @@ def chain_ops(env):
         if not np.all(np.asarray(x.qntot) == np.asarray(y.qntot)):
             return None
         fold = not np.allclose(x.coeff, y.coeff)
-        return "MpDm.add", [a, b], fold, x.add(y), dict(fold=fold)
+        return "MpDm.add", [a, b], fold, lambda: x.add(y), dict(fold=fold)
 
     def op_add_mpo():
         names = env.mpos()
         a, b = env.pick(names), env.pick(names)
-        return "Mpo.add", [a, b], False, env.objs[a].add(env.objs[b]), {}
+        return "Mpo.add", [a, b], False, lambda: env.objs[a].add(env.objs[b]), {}
 
     def op_distance():
         names = env.states(mps_only=True)
         a, b = env.pick(names), env.pick(names)
         x, y = env.objs[a], env.objs[b]
         fold = not np.allclose(x.coeff, y.coeff)
-        x.distance(y)
-        return "Mps.distance", [a, b], fold, None, dict(fold=fold)
+
+        def call():
+            x.distance(y)
+        return "Mps.distance", [a, b], fold, call, dict(fold=fold)
 
     def op_dot():
         names = env.states(mps_only=True)
         a, b = env.pick(names), env.pick(names)
         x, y = env.objs[a], env.objs[b]
-        x.conj().dot(y)
-        x.angle(y)
-        _ = x.norm, x.mp_norm, x.bond_dims, x.digest
-        return "dot/angle/norm", [a, b], False, None, {}
+
+        def call():
+            x.conj().dot(y)
+            x.angle(y)
+            _ = x.norm, x.mp_norm, x.bond_dims
+        return "dot/angle/norm", [a, b], False, call, {}
 
     def op_apply():
         o = env.pick(env.mpos())
         s = env.pick(env.states())
         O, S = env.objs[o], env.objs[s]
         how = int(rng.integers(0, 4))
-        if how == 0:
-            r = O.apply(S)
-        elif how == 1:
-            r = O @ S
-        elif how == 2:
-            r = O.apply(S, canonicalise=True)
-        else:
-            r = O.contract(S)
-        return ["Mpo.apply", "Mpo.__matmul__", "Mpo.apply(canonicalise)", "Mpo.contract"][how], [o, s], False, r, {}
+        call = [lambda: O.apply(S), lambda: O @ S, lambda: O.apply(S, canonicalise=True), lambda: O.contract(S)][how]
+        return ["Mpo.apply", "Mpo.__matmul__", "Mpo.apply(canonicalise)", "Mpo.contract"][how], [o, s], False, call, {}
 
     def op_mpdm_apply():
         o = env.pick(env.mpos())
         s = env.pick(env.states(mpdm_only=True))
         O, S = env.objs[o], env.objs[s]
-        r = S.apply(O, canonicalise=bool(rng.random() < 0.5))
-        return "MpDm.apply", [s, o], False, r, {}
+        cano = bool(rng.random() < 0.5)
+        return "MpDm.apply", [s, o], False, lambda: S.apply(O, canonicalise=cano), dict(canonicalise=cano)
 
     def op_mpo_mpo():
         a, b = env.pick(env.mpos()), env.pick(env.mpos())
-        r = env.objs[a].apply(env.objs[b])
-        return "Mpo.apply(Mpo)", [a, b], False, r, {}
+        return "Mpo.apply(Mpo)", [a, b], False, lambda: env.objs[a].apply(env.objs[b]), {}
 
     def op_conj_trans():
         a = env.pick(env.mpos())
-        r = env.objs[a].conj_trans()
-        env.objs[a].todense()
-        env.objs[a].is_hermitian()
-        return "Mpo.conj_trans/todense", [a], False, r, {}
+
+        def call():
+            r = env.objs[a].conj_trans()
+            env.objs[a].todense()
+            env.objs[a].is_hermitian()
+            return r
+        return "Mpo.conj_trans/todense", [a], False, call, {}
 
     def op_variational():
         o = env.pick(env.mpos())
         s = env.pick(env.states(mps_only=True))
         O, S = env.objs[o], env.objs[s]
-        r = S.variational_compress(O)
-        return "variational_compress", [s, o], False, r, {}
+        return "variational_compress", [s, o], False, lambda: S.variational_compress(O), {}
 
     def op_measure():
         s = env.pick(env.states())
@@ -431,74 +429,85 @@ def chain_ops(env):
         o = env.pick(env.mpos())
         O = env.objs[o]
         which = int(rng.integers(0, 7))
+        args = [s, o]
         if which == 0:
-            S.expectation(O)
+            call = lambda: S.expectation(O) and None
             nm = "expectation"
         elif which == 1:
             b = env.pick(env.states(mps_only=not isinstance(S, MpDm), mpdm_only=isinstance(S, MpDm)))
-            S.expectation(O, self_conj=env.objs[b].conj())
-            return "expectation(bra)", [s, o, b], False, None, {}
+            B = env.objs[b]
+            call = lambda: S.expectation(O, self_conj=B.conj()) and None
+            nm = "expectation(bra)"
+            args = [s, o, b]
         elif which == 2:
-            ops = [env.objs[env.pick(env.mpos())] for _ in range(int(rng.integers(1, 5)))]
-            S.expectations(ops)
+            onames = [env.pick(env.mpos()) for _ in range(int(rng.integers(1, 5)))]
+            ops = [env.objs[k] for k in onames]
+            call = lambda: S.expectations(ops) is None and None
             nm = "expectations"
+            args = [s] + onames
         elif which == 3:
-            try:
-                _ = S.e_occupations
-            except Exception:
-                pass
-            try:
-                _ = S.ph_occupations
-            except Exception:
-                pass
+            def call():
+                for attr in ("e_occupations", "ph_occupations"):
+                    try:
+                        getattr(S, attr)
+                    except Exception:
+                        pass
             nm = "occupations"
         elif which == 4:
-            S.calc_1site_rdm()
-            if S.site_num >= 2:
-                S.calc_2site_rdm()
+            def call():
+                S.calc_1site_rdm()
+                if S.site_num >= 2:
+                    S.calc_2site_rdm()
             nm = "rdm"
         elif which == 5:
-            if S.site_num >= 2:
-                S.calc_entropy("1site"), S.calc_entropy("2site"), S.calc_entropy("mutual")
-                S.calc_entropy("bond"), S.calc_bond_singular_values()
+            def call():
+                if S.site_num >= 2:
+                    S.calc_entropy("1site"), S.calc_entropy("2site"), S.calc_entropy("mutual")
+                    S.calc_entropy("bond"), S.calc_bond_singular_values()
             nm = "entropy"
         else:
-            S.todense()
-            try:
-                S.calc_edof_rdm()
-            except Exception:
-                pass
+            def call():
+                S.todense()
+                try:
+                    S.calc_edof_rdm()
+                except Exception:
+                    pass
             nm = "todense/edof_rdm"
-        return nm, [s, o], False, None, {}
+        return nm, args, False, call, {}
 
     def op_copy_then_mutate():
         s = env.pick(env.states() + env.mpos())
         S = env.objs[s]
-        c = S.copy()
         which = int(rng.integers(0, 5))
-        if which == 0:
-            c.ensure_left_canonical() if rng.random() < 0.5 else c.ensure_right_canonical()
-            nm = "copy().canonicalise"
-        elif which == 1:
-            c.ensure_right_canonical()
-            c.compress(temp_m_trunc=int(rng.integers(1, 3)))
-            nm = "copy().compress"
-        elif which == 2 and hasattr(c, "coeff"):
-            c.normalize(str(rng.choice(["mps_only", "mps_and_coeff", "mps_norm_to_coeff"])))
-            nm = "copy().normalize"
-        elif which == 3:
-            c.scale(complex(0.0, 2.0), inplace=True)
-            nm = "copy().scale(inplace)"
-        else:
-            c.to_complex(inplace=True)
-            c.move_qnidx(int(rng.integers(0, c.site_num)))
-            nm = "copy().to_complex(inplace)/move_qnidx"
-        return nm, [s], False, c, {}
+        left = bool(rng.random() < 0.5)
+        m = int(rng.integers(1, 3))
+        kind = str(rng.choice(["mps_only", "mps_and_coeff", "mps_norm_to_coeff"]))
+        k = int(rng.integers(0, S.site_num))
+        if which == 2 and not hasattr(S, "coeff"):
+            which = 0
+
+        def call():
+            c = S.copy()
+            if which == 0:
+                c.ensure_left_canonical() if left else c.ensure_right_canonical()
+            elif which == 1:
+                c.ensure_right_canonical()
+                c.compress(temp_m_trunc=m)
+            elif which == 2:
+                c.normalize(kind)
+            elif which == 3:
+                c.scale(complex(0.0, 2.0), inplace=True)
+            else:
+                c.to_complex(inplace=True)
+                c.move_qnidx(k)
+            return c
+        nm = ["copy().canonicalise", "copy().compress", "copy().normalize", "copy().scale(inplace)",
+              "copy().to_complex(inplace)/move_qnidx"][which]
+        return nm, [s], False, call, {}
 
     def op_from_mps():
         s = env.pick(env.states(mps_only=True))
-        r = MpDm.from_mps(env.objs[s])
-        return "MpDm.from_mps", [s], False, r, {}
+        return "MpDm.from_mps", [s], False, lambda: MpDm.from_mps(env.objs[s]), {}
 
     def op_evolve():
         s = env.pick(env.states())
@@ -510,11 +519,12 @@ def chain_ops(env):
         adaptive = bool(rng.random() < 0.3) and method in ("prop_and_compress", "prop_and_compress_tdrk", "tdvp_ps")
         step = float(rng.choice([0.05, 0.2]))
         dt = -1j * step if imag else step
-        kw = dict(adaptive=adaptive, guess_dt=dt / 2 if adaptive or method == "prop_and_compress_tdrk" else (dt / 2))
+        kw = dict(adaptive=adaptive, guess_dt=dt / 2)
         if method == "prop_and_compress_tdrk":
             kw["rk_solver"] = "RKF45" if adaptive else str(rng.choice(["C_RK4", "Heun_RK2", "Forward_Euler"]))
         if method in ("tdvp_mu_vmf", "tdvp_vmf", "tdvp_mu_cmf") and rng.random() < 0.3:
             kw["ivp_solver"] = "RK45"
+        # the caller's own writes (configuration) happen before the snapshot
         S.evolve_config = EvolveConfig(getattr(EvolveMethod, method), **kw)
         mode = int(rng.integers(0, 3))
         if mode == 0:
@@ -523,12 +533,10 @@ def chain_ops(env):
             S.compress_config = CompressConfig(CompressCriteria.threshold, threshold=float(rng.choice([1e-2, 1e-5])))
         else:
             S.compress_config = CompressConfig(CompressCriteria.fixed, max_bonddim=16)
-        if isinstance(S, MpDm) and method in ("tdvp_mu_vmf", "tdvp_vmf", "tdvp_mu_cmf"):
-            pass
-        name = f"evolve:{method}"
+        norm = bool(rng.random() < 0.7)
         extra = dict(method=method, imag=imag, adaptive=adaptive, dt=repr(dt), H=h, compress=mode,
-                     cls=type(S).__name__, normalize=True)
-        return name, [s, h], method in REGAUGE_EVOLVE, ("CALL", lambda: S.evolve(H, dt, normalize=bool(rng.random() < 0.7))), extra
+                     cls=type(S).__name__, normalize=norm, rk=kw.get("rk_solver"), ivp=kw.get("ivp_solver", "krylov"))
+        return f"evolve:{method}", [s, h], method in REGAUGE_EVOLVE, lambda: S.evolve(H, dt, normalize=norm), extra
 
     def op_evolve_exact():
         if not env.holstein:
@@ -539,28 +547,35 @@ def chain_ops(env):
         H = env.objs[h]
         space = "GS" if rng.random() < 0.5 else "EX"
         dt = float(rng.choice([0.1, 0.7]))
-        if rng.random() < 0.3:
-            dt = -1j * dt   # imaginary time works through the same formula
         extra = dict(space=space, dt=repr(dt), H=h, offset=float(H.offset), cls=type(S).__name__)
-        return f"{type(S).__name__}.evolve_exact", [s, h], False, ("CALL", lambda: S.evolve_exact(H, dt, space)), extra
+        return f"{type(S).__name__}.evolve_exact", [s, h], False, lambda: S.evolve_exact(H, dt, space), extra
 
     def op_optimize():
         s = env.pick(env.states(mps_only=True))
         h = env.pick(["H0", "H1"])
-        guess = env.objs[s].copy()
-        if guess.site_num < 2:
+        if env.objs[s].site_num < 2:
             return None
-        guess.optimize_config = OptimizeConfig(procedure=[[4, 0.3], [4, 0]])
-        guess.optimize_config.method = str(rng.choice(["1site", "2site"]))
-        return "optimize_mps(copy)", [s, h], False, ("CALL", lambda: optimize_mps(guess, env.objs[h])[1]), {}
+        method = str(rng.choice(["1site", "2site"]))
+
+        def call():
+            guess = env.objs[s].copy()
+            guess.optimize_config = OptimizeConfig(procedure=[[4, 0.3], [4, 0]])
+            guess.optimize_config.method = method
+            return optimize_mps(guess, env.objs[h])[1]
+        return "optimize_mps(copy)", [s, h], False, call, dict(method=method)
 
     def op_expand():
         s = env.pick(env.states(mps_only=True))
         h = env.pick(["H0", "H1"])
         S = env.objs[s]
         S.compress_config = CompressConfig(CompressCriteria.fixed, max_bonddim=int(rng.integers(2, 6)))
-        L.seed_global(rng)
-        return "expand_bond_dimension", [s, h], False, ("CALL", lambda: S.expand_bond_dimension(env.objs[h], coef=1e-3)), {}
+        sd = int(rng.integers(0, 2 ** 31 - 1))
+
+        def call():
+            np.random.seed(sd)
+            return S.expand_bond_dimension(env.objs[h], coef=1e-3)
+        # expand_bond_dimension adds an expander to self through Mps.add: coefficient folding applies
+        return "expand_bond_dimension", [s, h], True, call, {}
 
     return [op_copy, op_metacopy, op_conj, op_to_complex, op_scale, op_add, op_add, op_add_mpdm, op_add_mpo, op_distance,
             op_dot, op_apply, op_apply, op_mpdm_apply, op_mpo_mpo, op_conj_trans, op_variational, op_measure, op_measure,
@@ -571,33 +586,20 @@ def chain_ops(env):
 def run_chain_call(run, env, thunk):
     """one watched call.  The operation is *prepared* first (argument choice, config assignment - these
     are the caller's own writes), then everything is snapshotted, then the library call is made."""
-    rng = env.rng
-    state = rng.bit_generator.state
-    try:
-        prep = thunk()
-    except Exception as e:
-        # operations executed eagerly inside the thunk (cheap ones) may be rejected by the library
-        run.count(f"rejected:{thunk.__name__}:{type(e).__name__}")
-        return
+    prep = thunk()
     if prep is None:
         return
-    name, args, regauge_ok, result, extra = prep
-    eager = not (isinstance(result, tuple) and len(result) == 2 and result[0] == "CALL")
-    if eager:
-        # re-run with snapshots: restore the generator so that the same call is made again
-        rng.bit_generator.state = state
-        before = {k: Snap(v) for k, v in env.objs.items()}
-        prep = thunk()
-        name, args, regauge_ok, result, extra = prep
+    name, args, regauge_ok, call, extra = prep
+    d8_probe = None
+    if name == "evolve:prop_and_compress_tdrk":
+        d8_probe = env.objs[args[0]].copy()
+    before = {k: Snap(v) for k, v in env.objs.items()}
+    try:
+        result = call()
         exc = None
-    else:
-        before = {k: Snap(v) for k, v in env.objs.items()}
-        try:
-            result = result[1]()
-            exc = None
-        except Exception as e:
-            exc = e
-            result = None
+    except Exception as e:
+        exc = e
+        result = None
     run.count(f"op:{name}")
     after = {k: Snap(v) for k, v in env.objs.items()}
     if exc is not None:
@@ -619,7 +621,7 @@ def run_chain_call(run, env, thunk):
             run.count(f"meta-changed:{name}:{role}:{'+'.join(d)}")
             continue
         replay = dict(env=env.desc, op=name, args=args, changed=k, role=role, parts=d, extra=extra, log=env.log[-6:],
-                      before=L.ser_mp_from_snap(before[k]), after=L.ser_mp(env.objs[k]),
+                      before=before[k].ser(), after=L.ser_mp(env.objs[k]),
                       repr_change=float(np.max(np.abs(before[k].repr - after[k].repr))) if before[k].repr is not None and after[k].repr is not None and before[k].repr.shape == after[k].repr.shape else None)
         if rep_close and (regauge_ok and role == "arg"):
             run.count(f"regauged-input(allowed):{name}")
@@ -628,7 +630,7 @@ def run_chain_call(run, env, thunk):
         if name == "Mps.evolve_exact" and coeff and not tens and extra.get("offset", 0.0) != 0.0:
             report(run, SIG_D3, replay)
             continue
-        if name == "evolve:prop_and_compress_tdrk" and tens and role == "arg" and _is_d8(before[k], env.objs[k]):
+        if name == "evolve:prop_and_compress_tdrk" and tens and role == "arg" and _is_d8(d8_probe, env.objs[k]):
             if rep_close:
                 run.count("D8:input-regauged-only(no truncation)")
             report(run, SIG_D8, replay)
@@ -659,10 +661,19 @@ def run_chain_call(run, env, thunk):
                 env.add_obj(pre, result)
 
 
-def _is_d8(before, obj_after):
+def _is_d8(probe, obj_after):
     """D8 = compressed_sum([y]) does y.canonicalise(); y.compress() on the input itself.  Replay exactly that
-    on a reconstruction of the pre-call input: identical bits <=> the input went through that branch."""
-    return obj_after.to_right is not None and (obj_after.qnidx in (0, obj_after.site_num - 1))
+    on a pre-call copy of the input: identical tensor bits <=> the input went through that branch."""
+    if probe is None:
+        return False
+    try:
+        probe.canonicalise()
+        probe.compress()
+    except Exception:
+        return False
+    a = [m.array for m in probe]
+    b = [m.array for m in obj_after]
+    return len(a) == len(b) and all(x.shape == y.shape and x.tobytes() == y.tobytes() for x, y in zip(a, b))
 
 
 # ------------------------------------------------------------------------------------ driver
